@@ -61,7 +61,16 @@ pub fn run_children(args: &Args, rep: &mut Report) -> bool {
         let st = c.wait().expect("wait shard");
         let code = st.code().unwrap_or(-1);
         match std::fs::read_to_string(&out).ok().and_then(|t| serde_json::from_str::<Value>(&t).ok()) {
-            Some(j) if code == 0 || code == 1 || code == 2 => rep.merge_child(&j),
+            Some(j) if code == 0 || code == 1 || code == 2 => {
+                rep.merge_child(&j);
+                // engines that count states instead of collecting their hashes
+                if j["extra"]["_states"].as_array().map(|a| a.is_empty()).unwrap_or(true) {
+                    rep.states += j["states"].as_u64().unwrap_or(0);
+                }
+                if j["extra"]["_transitions"].as_array().map(|a| a.is_empty()).unwrap_or(true) {
+                    rep.transitions += j["transitions"].as_u64().unwrap_or(0);
+                }
+            }
             _ => rep.machinery_errors.push(format!("shard {out} exited {code} without a report")),
         }
         let _ = std::fs::remove_file(&out);
